@@ -174,7 +174,17 @@ Step(tr, i) ==
                              \cup discover(k)
                              \cup (IF Addresses(req.items[k]) /\ req.items[k].p.uid = NoUid
                                       /\ PhBefore(req, res, k) = NoUid
-                                      /\ res.items[k].status = "Success" THEN {"C11_placeholder"} ELSE {})]
+                                      /\ res.items[k].status = "Success" THEN {"C11_placeholder"} ELSE {})
+                             \* C08(c): an identifier-less item addresses the object most recently created earlier in this
+                             \* batch - whatever happened to the items in between.  While that object exists the item may
+                             \* not be answered "not found", and a successful answer is about that object.
+                             \cup (IF Addresses(req.items[k]) /\ req.items[k].p.uid = NoUid
+                                      /\ PhBefore(req, res, k) # NoUid /\ PhBefore(req, res, k) \in DOMAIN before(k).objs
+                                      /\ \/ (res.items[k].status # "Success" /\ res.items[k].reason = "ItemNotFound" /\ res.items[k].mc = "NotFound")   \* "could not locate object" (a denial has another reason)
+                                         \/ (res.items[k].status = "Success" /\ Len(res.items[k].uids) > 0
+                                             /\ req.items[k].op \notin CreatingOps \cup {"Locate"}
+                                             /\ res.items[k].uids[1] # PhBefore(req, res, k))
+                                   THEN {"C08_placeholder"} ELSE {})]
                      ELSE <<>>
         reqFails == ReqFailed(s, req, res, pre, post)
         drift == ReqDrift(pre, req, res, post)
